@@ -689,21 +689,25 @@ def _sim_common(report, want_c15, want_c16):
     from harness import sim, tlc
     thorough = report.tier == "thorough"
     consts = dict(Ns={8, 10, 12, 16} if thorough else {8, 12}, TestSizes={(1, 4), (1, 2), (3, 8)},
-                  Batches={0, 1, 2, 3, 4} if thorough else {0, 1, 3}, Orders={True, False})
-    result = tlc.run("Sim", consts, invariants=["Inv_C15_EachRowOnce", "Inv_C15_LearnAfterPredict"], view=None,
+                  Batches={0, 1, 2, 3, 4} if thorough else {0, 1, 3}, Orders={True, False}, Scalers={False, True})
+    result = tlc.run("Sim", consts, invariants=["Inv_C15_EachRowOnce", "Inv_C15_LearnAfterPredict", "Inv_C15_ScaleFirst"], view=None,
                      constraint=None, workers=1, timeout=600)
     if result.violated:
         raise Machinery("Sim.tla: %s violated" % result.violated)
-    report.add_tlc("Sim/protocol-scripts", result, ["Inv_C15_EachRowOnce", "Inv_C15_LearnAfterPredict"],
-                   note="every (n, test_size, ordered, batch_size) with its public-API script")
+    report.add_tlc("Sim/protocol-scripts", result, ["Inv_C15_EachRowOnce", "Inv_C15_LearnAfterPredict", "Inv_C15_ScaleFirst"],
+                   note="every (n, test_size, ordered, batch_size, scaler) with its public-API script")
     confs = result.edges
     findings, counters, records = [], {}, []
     lists = sim.LISTS
     k = 0
+    contextual_lists = [l for l in lists if any(sim.base_name(n) not in sim.CONTEXT_FREE for n in l)]
     for conf in confs:
         picks = lists if thorough else [lists[(k + report.seed + j * 3) % len(lists)] for j in range(4)]
+        if conf.get("scaled"):
+            # the scaler only matters for contextual bandits; one list per configuration in the quick tier
+            picks = contextual_lists if thorough else [contextual_lists[(k + report.seed) % len(contextual_lists)]]
         for names in picks:
-            for is_quick in (False, True):
+            for is_quick in ((False, True) if (thorough or not conf.get("scaled")) else (bool(k % 2),)):
                 if len(names) and min(conf["n"] - conf["T"], conf["n"]) < 4 and any(n.startswith("knn") for n in names):
                     continue
                 sim.run_config(conf, names, report.seed + k, is_quick, findings, counters, records)
